@@ -5,13 +5,13 @@ neutral edits are behaviour-preserving refactorings that must leave every rule s
 EDITS = []
 
 
-def B(prop, id, file, old, new, rule, key=''):
+def B(prop, id, file, old, new, rule, key='', more=()):
     EDITS.append({'prop': prop, 'id': id, 'kind': 'breaking', 'file': file, 'old': old, 'new': new,
-                  'expect_rule': rule, 'expect_key': key})
+                  'expect_rule': rule, 'expect_key': key, 'more': list(more)})
 
 
-def N(prop, id, file, old, new):
-    EDITS.append({'prop': prop, 'id': id, 'kind': 'neutral', 'file': file, 'old': old, 'new': new})
+def N(prop, id, file, old, new, more=()):
+    EDITS.append({'prop': prop, 'id': id, 'kind': 'neutral', 'file': file, 'old': old, 'new': new, 'more': list(more)})
 
 
 THM = 'kernel/thm.py'
@@ -309,8 +309,8 @@ B('C09', 'Inst copy shares the type instantiation', 'kernel/term.py',
 B('C09', 'Inst copy forgets variable instantiations', 'kernel/term.py',
   '        res.var_inst = copy(self.var_inst)\n', '', 'C09.N2', 'Inst.__copy__')
 B('C09', 'matcher overwrites an existing binding', MAT,
-  '            if pat.head.name not in inst:\n                # If we are in an abstraction, check t does not contain any\n                # bound variables\n                if bd_vars and t.has_vars(bd_vars):\n                    raise MatchException(trace)\n                inst[pat.head.name] = t\n            else:\n                if inst[pat.head.name] != t:\n                    raise MatchException(trace)',
-  '            if bd_vars and t.has_vars(bd_vars):\n                raise MatchException(trace)\n            inst[pat.head.name] = t', 'C09.N3', 'bind(pat.head.name)')
+  '                inst[pat.head.name] = t\n            else:\n                if inst[pat.head.name] != t:\n                    raise MatchException(trace)\n        elif pat.is_comb() and pat.head.is_svar():',
+  '                inst[pat.head.name] = t\n            else:\n                inst[pat.head.name] = t\n        elif pat.is_comb() and pat.head.is_svar():', 'C09.N3', 'bind(pat.head.name)')
 N('C09', 'copy on entry as conditional expression', MAT,
   '    if inst is None:\n        inst = Inst()\n    else:\n        inst = copy(inst)  # do not modify input\n', '    inst = Inst() if inst is None else copy(inst)\n')
 
@@ -504,3 +504,85 @@ B('C18', 'ite_intro ignores the first conjunct', 'smt/veriT/verit_macro.py',
   "        expected_ites = rhs.strip_conj()[1:]", 'C18.R5', 'verit_ite_intro')
 B('C18', 'let drops hypotheses without consulting the premises', 'smt/veriT/verit_macro.py',
   "                if hyp.rhs != t and (t, hyp.rhs) not in ctx:\n                    raise VeriTException(\"let\", \"hypothesis %s is not justified\" % hyp)\n", "                pass\n", 'C18.R6', 'verit_let')
+
+# ------------------------------------------------------------------------------------------- rules added after the second round of seeded changes
+B('C03', 'equality answers from cached hashes', TERM,
+  "        if self.ty != other.ty:\n            return False\n        elif self.ty == Term.SVAR or self.ty == Term.VAR or self.ty == Term.CONST:\n            return self.name == other.name and self.T == other.T",
+  "        if self.ty != other.ty:\n            return False\n        if getattr(self, '_hash_val', None) != getattr(other, '_hash_val', None):\n            return False\n        if self.ty == Term.SVAR or self.ty == Term.VAR or self.ty == Term.CONST:\n            return self.name == other.name and self.T == other.T",
+  'C03.I2', 'reads-structure-only')
+N('C03', 'identity shortcut written with `is`', TERM,
+  "        if self._id == other._id:\n            return True\n\n        if self.ty != other.ty:", "        if self is other or self._id == other._id:\n            return True\n\n        if self.ty != other.ty:")
+B('C04', 'normaliser memo written whenever the result has no hypotheses', 'logic/auto.py',
+  '    if not pts:\n        norm_record[t] = res_pt\n    return res_pt', '    if not res_pt.hyps:\n        norm_record[t] = res_pt\n    return res_pt', 'C04.M7', 'memo(norm_record)')
+B('C05', 'quotient of equal normal forms cancels', 'data/real.py',
+  "        if p_denom.is_nonzero_constant():\n            return convert_to_poly(num).scale(Fraction(1, p_denom.get_constant()))\n        else:\n            return poly.singleton(t)",
+  "        if p_denom.is_nonzero_constant():\n            return convert_to_poly(num).scale(Fraction(1, p_denom.get_constant()))\n        elif convert_to_poly(num) == p_denom and not p_denom.is_zero_constant():\n            return poly.constant(1)\n        else:\n            return poly.singleton(t)",
+  'C05.T7', 'convert_to_poly :: divides-branch')
+B('C05', 'inverse evaluated without zero test', 'data/real.py',
+  "            denom = rec(t.arg)\n            if denom == 0:\n                raise ConvException('real_eval: divide by zero')\n            else:\n                return Fraction(1) / denom",
+  "            denom = rec(t.arg)\n            return Fraction(1) / denom if denom else Fraction(0)", 'C05.T7', 'real_eval.<locals>.rec :: real_inverse-branch')
+N('C05', 'quotient branch with the opaque case first', 'data/real.py',
+  "        if p_denom.is_nonzero_constant():\n            return convert_to_poly(num).scale(Fraction(1, p_denom.get_constant()))\n        else:\n            return poly.singleton(t)",
+  "        if not p_denom.is_nonzero_constant():\n            return poly.singleton(t)\n        return convert_to_poly(num).scale(Fraction(1, p_denom.get_constant()))")
+B('C06', 'forall records the original binder name as bound', 'prover/z3wrapper.py',
+  "        elif t.is_forall():\n            nm = name.get_variant_name(t.arg.var_name, var_names)\n            var_names.append(nm)\n            bound_names.add(nm)",
+  "        elif t.is_forall():\n            nm = name.get_variant_name(t.arg.var_name, var_names)\n            var_names.append(nm)\n            bound_names.add(t.arg.var_name)",
+  'C06.Z1', 'alias-only-for-free-variables')
+B('C07', 'print_ast keeps the list it returns on the AST node', 'syntax/pprint.py',
+  "    if not settings.line_length:\n        res = res[0]\n\n    return res", "    if not settings.line_length:\n        res = res[0]\n\n    ast.printed = res\n    return res", 'C07.W5', 'print_ast')
+N('C07', 'commas_join copies its first item', 'syntax/printer.py',
+  "            res = strs[0]\n            for s in strs[1:]:", "            res = list(strs[0])\n            for s in strs[1:]:")
+B('C08', 'signature memo in the class body of Theory', THEORY,
+  "        if stvar:\n            return data[name].convert_stvar()\n        else:\n            return data[name]",
+  "        if stvar:\n            if name not in self.sig_memo:\n                self.sig_memo[name] = data[name].convert_stvar()\n            return self.sig_memo[name]\n        else:\n            return data[name]",
+  'C08.U6', 'Theory :: per-object-tables', more=[("    def __init__(self):\n        self.data = dict()\n", "    sig_memo = dict()\n\n    def __init__(self):\n        self.data = dict()\n")])
+N('C08', 'signature memo created per object', THEORY,
+  "        if stvar:\n            return data[name].convert_stvar()\n        else:\n            return data[name]",
+  "        if stvar:\n            if name not in self.sig_memo:\n                self.sig_memo[name] = data[name].convert_stvar()\n            return self.sig_memo[name]\n        else:\n            return data[name]",
+  more=[("    def __init__(self):\n        self.data = dict()\n", "    def __init__(self):\n        self.data = dict()\n        self.sig_memo = dict()\n")])
+B('C09', 'rigid type variable matches anything but another variable', 'kernel/type.py',
+  "        elif self.is_tvar():\n            if self != T:\n                raise TypeMatchException('Unable to match %s with %s' % (self, T))",
+  "        elif self.is_tvar():\n            if T.is_tvar() and T.name != self.name:\n                raise TypeMatchException('Unable to match %s with %s' % (self, T))", 'C09.N5', 'tvar :: equal-to-target')
+B('C09', 'constructor arguments not matched', 'kernel/type.py',
+  "                for arg, argT in zip(self.args, T.args):\n                    arg.match_incr(argT, tyinst)", "                pass", 'C09.N5', 'arguments-matched')
+N('C09', 'rigid type variable test written positively', 'kernel/type.py',
+  "        elif self.is_tvar():\n            if self != T:\n                raise TypeMatchException('Unable to match %s with %s' % (self, T))",
+  "        elif self.is_tvar():\n            if self == T:\n                return\n            raise TypeMatchException('Unable to match %s with %s' % (self, T))")
+B('C09', 'bare schematic variable bound without matching its type', 'logic/matcher.py',
+  "                try:\n                    pat.T.match_incr(t.get_type(), inst.tyinst)\n                except TypeMatchException:\n                    raise MatchException(trace)\n                inst[pat.head.name] = t",
+  "                inst[pat.head.name] = t", 'C09.N6', 'typed-bind(pat.head.name)@t')
+B('C10', 'dest_atom merged with wrong precedence', 'data/real.py',
+  "    elif t.is_nat_power() and t.arg.is_number():\n        return t.arg1\n    elif t.is_real_power() and t.arg.is_number():\n        return t.arg1\n    else:\n        return t",
+  "    elif t.is_nat_power() or t.is_real_power() and t.arg.is_number():\n        return t.arg1\n    else:\n        return t", 'C10.V6', 'exponent-form-agreement')
+N('C10', 'dest_atom merged correctly', 'data/real.py',
+  "    elif t.is_nat_power() and t.arg.is_number():\n        return t.arg1\n    elif t.is_real_power() and t.arg.is_number():\n        return t.arg1\n    else:\n        return t",
+  "    elif (t.is_nat_power() or t.is_real_power()) and t.arg.is_number():\n        return t.arg1\n    else:\n        return t")
+B('C11', 'overload instance needs only one concrete component', THEORY,
+  "            for _, v in sorted(inst.items()):\n                if not v.is_tconst():\n                    raise TheoryException(\"When overloading %s with %s: cannot instantiate to type variables\" % (aT, T))",
+  "            if not [v for _, v in sorted(inst.items()) if v.is_tconst()]:\n                raise TheoryException(\"When overloading %s with %s: cannot instantiate to type variables\" % (aT, T))",
+  'C11.D5', 'every-type-variable-concrete')
+N('C11', 'overload instance guard written with all()', THEORY,
+  "            for _, v in sorted(inst.items()):\n                if not v.is_tconst():\n                    raise TheoryException(\"When overloading %s with %s: cannot instantiate to type variables\" % (aT, T))",
+  "            if not all(v.is_tconst() for v in inst.values()):\n                raise TheoryException(\"When overloading %s with %s: cannot instantiate to type variables\" % (aT, T))")
+B('C12', 'theorem cache table shared by all theories', THEORY,
+  '    thy.add_data_type("theorems_svar")', '    thy.add_data_type("theorems_svar", theorems_svar)', 'C12.L8', "add_data_type('theorems_svar')",
+  more=[("def EmptyTheory():", "theorems_svar = dict()\n\ndef EmptyTheory():")])
+N('C12', 'theorem cache table passed explicitly as a fresh dict', THEORY,
+  '    thy.add_data_type("theorems_svar")', '    thy.add_data_type("theorems_svar", dict())')
+B('C13', 'replace_id rewrites one level only', 'server/method.py',
+  "        def replace(prf: Proof):\n            for item in prf.items:\n                item.prevs = [new_id if id == old_id else id for id in item.prevs]\n                if item.subproof:\n                    replace(item.subproof)\n",
+  "        def replace(prf: Proof):\n            for item in prf.items:\n                item.prevs = [new_id if id == old_id else id for id in item.prevs]\n", 'C13.A7', 'citation-rewrite')
+B('C14', 'fact ids recorded in selection order', 'server/method.py',
+  "                        r['fact_ids'] = list(str(id) for id in perm_prevs)", "                        r['fact_ids'] = list(str(id) for id in prevs)", 'C14.S4', 'fact_ids-from-search-argument')
+N('C14', 'fact ids computed once per permutation', 'server/method.py',
+  "                res = cur_method.search(self, id, perm_prevs)\n                for r in res:", "                res = cur_method.search(self, id, perm_prevs)\n                perm_ids = [str(p) for p in perm_prevs]\n                for r in res:",
+  more=[("                        r['fact_ids'] = list(str(id) for id in perm_prevs)", "                        r['fact_ids'] = list(perm_ids)")])
+B('C18', 'comparison cache as a default argument', 'smt/veriT/verit_macro.py',
+  "def compare_sym_tm(tm1, tm2, *, ctx=None, depth=-1):", "def compare_sym_tm(tm1, tm2, *, ctx=None, depth=-1, cache=set()):", 'C18.R7', 'compare_sym_tm',
+  more=[("    if ctx is None:\n        ctx = set()\n    cache = set()\n    def helper(t1, t2, depth):", "    if ctx is None:\n        ctx = set()\n    def helper(t1, t2, depth):")])
+B('C19', 'last side condition decides', 'integral/rules.py',
+  "                    cond = cond.inst_pat(inst)\n                    if not ctx.get_conds().check_condition(cond):\n                        satisfied = False\n                if satisfied:\n                    return normalize(identity.rhs.inst_pat(inst), ctx.get_conds())",
+  "                    cond = cond.inst_pat(inst)\n                    satisfied = ctx.get_conds().check_condition(cond)\n                if satisfied:\n                    return normalize(identity.rhs.inst_pat(inst), ctx.get_conds())", 'C19.E4', 'DefiniteIntegralIdentity.eval')
+N('C19', 'side conditions accumulated with and', 'integral/rules.py',
+  "                    cond = cond.inst_pat(inst)\n                    if not ctx.get_conds().check_condition(cond):\n                        satisfied = False\n                if satisfied:\n                    return normalize(identity.rhs.inst_pat(inst), ctx.get_conds())",
+  "                    cond = cond.inst_pat(inst)\n                    satisfied = satisfied and ctx.get_conds().check_condition(cond)\n                if satisfied:\n                    return normalize(identity.rhs.inst_pat(inst), ctx.get_conds())")
